@@ -1,5 +1,9 @@
-"""Per-property configuration of the orchestrator (which theorem modules, which harness stream,
-which build profiles, the non-triviality rule quoted into the evidence)."""
+"""Per-property configuration of the orchestrator: one JSON file per property under tools/props/
+(which theorem modules, which harness stream, which build profiles, the files the mirror models
+were written against, the non-triviality rule quoted into the evidence)."""
+import json, os
+
+HERE = os.path.dirname(os.path.abspath(__file__))
 
 TRUSTED_BASE = [
     "Lean 4.33.0 kernel (lake build; thorough tier re-checks the .olean with leanchecker)",
@@ -10,15 +14,7 @@ TRUSTED_BASE = [
     "rustc/LLVM, the CPU's execution of the intrinsics, Rust std, generic-array/typenum are outside the model",
 ]
 
-PROPS = {
-    "C05": {
-        "lean": ["LMV.Props.C05"],
-        "harness": "c05",
-        "profiles": ["release"],
-        "files": ["lightmotif/src/abc.rs", "lightmotif/src/pli/mod.rs", "lightmotif/src/pli/dispatch.rs",
-                  "lightmotif/src/pli/platform/avx2.rs", "lightmotif/src/pli/platform/sse2.rs", "lightmotif/src/seq.rs"],
-        "rule": "byte strings for DNA and protein through generic/sse2/avx2 pipelines and the three forced dispatcher arms, APIs encode/encode_raw/encode_into/from_str; boundary stream = every length 0..130, one invalid byte at every block-offset class, all 256 byte values; random stream to 5 000 (thorough 70 000) bytes. non-trivial = length >= 32 (a vector block executes) or an invalid byte present; distinct = distinct case line",
-        "strength": "full: acceptance iff all bytes are letters, first offending byte, symbol = letter rank, display round trip, and equality of AVX2 / SSE2 / every dispatcher arm with the generic encoder, for every byte string of every length (induction over blocks); per-byte lane facts by kernel evaluation over all 256 values on the regenerated tables",
-        "assumptions": ["the vector kernels use only lane-wise byte operations (cmpeq/blendv/and/andnot/or), modelled per byte; their block structure (stride, loop test, rescan, scalar tail) is mirrored by hand and tied by the correspondence run"],
-    },
-}
+PROPS = {}
+for fn in sorted(os.listdir(os.path.join(HERE, "props"))):
+    if fn.endswith(".json"):
+        PROPS[fn[:-5]] = json.load(open(os.path.join(HERE, "props", fn)))
